@@ -5,6 +5,14 @@ ROOT = os.path.dirname(os.path.dirname(os.path.abspath(__file__)))
 
 CLAIMED = {
  # id: (category, text, note, technique, design_ref)
+ "C17": ("exploration",
+         "The standard global invariant of deterministic simulation: every simulated scenario of the other claimed properties is executed, valid operations only, in both build profiles (release; armed = debug-assertions + overflow-checks on) with every library call under a panic guard, plus a dedicated crash/restart scenario pinned to the documented configuration extremes (HLL lg_k 4/21, CPC 4/16/21, theta 5, t-digest k 10, Frequent Items map 8, Bloom 1 bit/1 hash, Count-Min 1x3 with narrow counters) whose twin comparison stays armed so that release-profile wrap-around surfaces as a mismatch; any panic raised inside the library, identified by source location and statement, is the violation.",
+         "Trusted: the preconditions of DESIGN.md Appendix C define valid use. Model mismatches found by the re-run scenarios belong to their own property; only panics/aborts count for those parts.",
+         "deterministic simulation: all scenarios re-run in two build profiles with the library's own assertions and overflow checks armed; panic = violation", "DESIGN.md §4 C17"),
+ "C18": ("exploration",
+         "A measurement tap on the simulated wire/disk: long-lived workers of every family are fed streams of up to 2^18 (2^22 thorough) distinct, repeated, adversarially ordered and crafted items and flush at every power-of-two prefix; every image is measured against the size its configuration dictates (HLL exact byte counts per mode and the promotion rule, theta retained-entry bounds after every update and after trim, Frequent Items capacity after every update, Bloom/Count-Min constant size), and CPC images above max_serialized_bytes are counted per sketch lifetime with the batch rate compared against the documented 0.1% (Bernstein margin at 1e-9).",
+         "Trusted: the size formulas of the statement. The simulator contributes only the measurement point; CPC is measured on prefixes that are sketches of random item sets, which is what its empirical bound is stated for.",
+         "deterministic simulation: size tap on every flushed image at power-of-two stream prefixes + batch-level rate clause", "DESIGN.md §4 C18"),
  "C11": ("exploration",
          "Seeded crash/restart simulation per family: a primary and a never-crashed twin receive the identical PRNG-drawn history; the primary writes framed checkpoints (synced or not), is crashed at arbitrary points with the unsynced newest generation torn or surviving, and restarts from the newest verifiable generation through the real deserialize plus WAL replay; after every operation following a restart all public accessors must be equal bit for bit, images byte-identical where canonical and equal as independently decoded state otherwise, CpcWrapper equal to the sketch; compact theta takes part in the degenerate form (every delta width, both serial forms, byte-identical re-serialization); every run ends with the back-to-back checkpoint-crash-restart schedule plus a further update batch and merge.",
          "Trusted: the harness frame CRC and durable WAL (the library only ever restores intact images); the twin (same real code, same history) is the oracle. One narrowly identified sub-class (Frequent Items purge after restore) is a recorded finding.",
